@@ -129,7 +129,8 @@ func (l *ln) QueryRoutes(ctx context.Context, in *lnrpc.QueryRoutesRequest, opts
 
 type router struct {
 	routerrpc.RouterClient
-	b *lnmodel.Backend
+	b            *lnmodel.Backend
+	inflightSeen int // in-flight answers given so far (the mint serialises its status lookups per request; races only shift the parity)
 }
 
 func (r *router) SendToRouteV2(ctx context.Context, in *routerrpc.SendToRouteRequest, opts ...grpc.CallOption) (*lnrpc.HTLCAttempt, error) {
@@ -156,6 +157,7 @@ type trackStream struct {
 	grpc.ClientStream
 	ctx  context.Context
 	b    *lnmodel.Backend
+	r    *router
 	hash string
 }
 
@@ -169,14 +171,24 @@ func (s *trackStream) Recv() (*lnrpc.Payment, error) {
 	case st.PaymentStatus == lightning.Succeeded:
 		return &lnrpc.Payment{PaymentHash: s.hash, Status: lnrpc.Payment_SUCCEEDED, PaymentPreimage: st.Preimage}, nil
 	case st.PaymentStatus == lightning.Pending:
-		return &lnrpc.Payment{PaymentHash: s.hash, Status: lnrpc.Payment_IN_FLIGHT}, nil
+		// LND records a failure reason (time-out, no further route) as soon as it gives up starting new attempts, while
+		// the payment stays IN_FLIGHT for as long as one HTLC is out - and that HTLC can still settle. Every other
+		// in-flight answer of this imitation (starting with the first) carries such a reason.
+		p := &lnrpc.Payment{PaymentHash: s.hash, Status: lnrpc.Payment_IN_FLIGHT}
+		if s.r != nil {
+			s.r.inflightSeen++
+			if s.r.inflightSeen%2 == 1 {
+				p.FailureReason = lnrpc.PaymentFailureReason_FAILURE_REASON_TIMEOUT
+			}
+		}
+		return p, nil
 	default:
 		return &lnrpc.Payment{PaymentHash: s.hash, Status: lnrpc.Payment_FAILED, FailureReason: lnrpc.PaymentFailureReason_FAILURE_REASON_NO_ROUTE}, nil
 	}
 }
 
 func (r *router) TrackPaymentV2(ctx context.Context, in *routerrpc.TrackPaymentRequest, opts ...grpc.CallOption) (routerrpc.Router_TrackPaymentV2Client, error) {
-	return &trackStream{ctx: ctx, b: r.b, hash: hex.EncodeToString(in.PaymentHash)}, nil
+	return &trackStream{ctx: ctx, b: r.b, r: r, hash: hex.EncodeToString(in.PaymentHash)}, nil
 }
 
 type invoices struct {
